@@ -33,6 +33,11 @@ META["text"] = (
     "The real mjuu_eig3 meets its contract only approximately: it stops when the Jacobi angle is below ~1.4e-6 rad (designed accuracy), so the reconstruction oracle on body_iquat/body_inertia "
     "uses 5e-6 * trace for bodies with trace >= 1e-6 (measured worst ~4e-7); its second stopping rule (|off-diagonal| < 1e-12, absolute) leaves the axes of small bodies uncomputed "
     "(recorded finding absolute-threshold-small-bodies, reproduced on two fixed mm-sized bodies on every run). "
+    "FUSING (round 3): mjCBody::AccumulateInertia is modelled (accumulateInertia) and C35_fuse proves that for unit quaternions it is the two-entry parallel-axis accumulation of the parent's inertial "
+    "and of the child's inertial transported into the parent frame (position pos + R(quat) ipos, orientation quat*iquat), and that the composed orientation rotates the child's tensor by the child's body rotation "
+    "(R(quat*iquat) D R(quat*iquat)^T = R(quat) (R(iquat) D R(iquat)^T) R(quat)^T); on every run chains of a hinged body with 1-2 jointless rotated children carrying elongated geoms are compiled separately, with "
+    "fusestatic and through mjs_bodyToFrame: the receiving body's mass, centre of mass, reconstructed tensor (5e-6*trace) and, where no eig3 result entered the accumulation, the tensor handed to mjuu_fullInertia "
+    "(1e-9*trace) must be those of the union of all geoms (quadrature in the parent frame, poses composed in python); the model is run at binary64 on the separately compiled parent/child and compared with the fused output. "
     "TIE (every run, through the mjSpec C API and mj_compile of the tree under test): per-geom mass_ and inertia, body mass, ipos, single-geom iquat/inertia and the private tensor handed to "
     "mjuu_fullInertia are compared in Coq with the model evaluated at binary64 (relative 2^-30), mjuu_globalinertia / mjuu_offcenter are compared directly; independent numpy oracle on the "
     "compiled output: mass, centre of mass and tensor obtained by Gauss quadrature over the geoms (no closed forms, no parallel-axis theorem), reconstruction, triangle inequalities, "
@@ -266,6 +271,9 @@ Definition chkB (c : Z * Z * list (geom float) * list float * list float) : bool
   let '(glo, ghi, gs, out, gout) := c in
   match bodyInertial glo ghi gs, out with
   | None, nil => true
+  (* mjuu_fullInertia rejects a tensor whose smallest eigenvalue is below mjEPS = 1e-14 (not modelled: eig3 is abstract); such a
+     rejection is accepted only for tensors of trace below 1e-12 *)
+  | Some (Some (IFull _ _ f)), nil => PrimFloat.ltb (trace6 (s2l f)) 0x1.19799812dea11p-40
   | Some None, m :: _ => PrimFloat.eqb m 0
   | Some (Some i), [m; p0; p1; p2; q0; q1; q2; q3; d0; d1; d2; f0; f1; f2; f3; f4; f5] =>
       let J := s2l (inertialFull i) in
@@ -278,10 +286,24 @@ Definition chkB (c : Z * Z * list (geom float) * list float * list float) : bool
       match compileGeoms (filter (inGroup glo ghi) gs) with Some cs => geomsOK cs gout | None => false end
   | _, _ => false
   end.
+(* fusing: (parent [mass; ipos3; iquat4; inertia3], child [mass; ipos3; iquat4; inertia3; body_pos3; body_quat4], fused [mass; ipos3; full6]) *)
+Definition chkS (c : list float * list float * list float) : bool :=
+  let '(p, ch, out) := c in
+  let gg := fun (l : list float) (i : nat) => nth i l 0%float in
+  let res : cgeom float := (gg p 0, (gg p 1, gg p 2, gg p 3), (gg p 4, gg p 5, gg p 6, gg p 7), (gg p 8, gg p 9, gg p 10))%nat in
+  let oth : cgeom float := (gg ch 0, (gg ch 1, gg ch 2, gg ch 3), (gg ch 4, gg ch 5, gg ch 6, gg ch 7), (gg ch 8, gg ch 9, gg ch 10))%nat in
+  let opose : pose float := ((gg ch 11, gg ch 12, gg ch 13), (gg ch 14, gg ch 15, gg ch 16, gg ch 17))%nat in
+  match accumulateInertia res opose oth, out with
+  | IFull m ip f, [m'; p0; p1; p2; f0; f1; f2; f3; f4; f5] =>
+      rcl tol (fabs m) 0 m m' && fclose_list tol (v2l ip) [p0; p1; p2] && all2 (rcl tol (trace6 (s2l f)) 0) (s2l f) [f0; f1; f2; f3; f4; f5]
+  | _, _ => false
+  end.
 Definition bcase : Type := (Z * Z * list (geom float) * list float * list float)%type.
 Definition dcase : Type := (list float * list float)%type.
-Definition IB (x : bcase) : bcase + dcase := inl x.
-Definition ID (x : dcase) : bcase + dcase := inr x.
+Definition scase : Type := (list float * list float * list float)%type.
+Definition IB (x : bcase) : bcase + (dcase + scase) := inl x.
+Definition ID (x : dcase) : bcase + (dcase + scase) := inr (inl x).
+Definition IS (x : scase) : bcase + (dcase + scase) := inr (inr x).
 Definition chkG (c : list float * list float) : bool :=
   let '(a, out) := c in
   match a with
@@ -371,7 +393,9 @@ def run(ctx):
                 ctx.violation("impl_violation", case_js, expected="compile error (negative mass/density)", observed=line[:200], theorem="C35 oracle", signature=sig)
             continue
         if o is None:
-            ctx.violation("impl_violation", case_js, expected="compiles", observed=line[:300], theorem="C35 oracle", signature=sig)
+            tiny = isinstance(exp, dict) and trace(exp["J"]) < 1e-12 and "positive eigenvalues" in line
+            if not tiny:        # mjuu_fullInertia documents the rejection of inertias with an eigenvalue below 1e-14
+                ctx.violation("impl_violation", case_js, expected="compiles", observed=line[:300], theorem="C35 oracle", signature=sig)
             continue
         if exp is None:
             if o[0] != 0.0:
@@ -426,10 +450,15 @@ def run(ctx):
         ctx.broken.append(("correspondence", "driver c35_mass failed (G/O)", err[-500:]))
     else:
         dlits = ["(%s, %s)" % (F.flist(a), F.flist([unhx(t) for t in l.split()])) for (op, a), l in zip(dcases, dl)]
-    allfails = ctx.coq_eval("c35", imports, ["(IB %s)" % x for x in lits] + ["(ID %s)" % x for x in dlits],
-                            "(fun c => match c with inl b => chkB b | inr d => chkG d end)", pre=COQ_PRE, shard=60)
+    slits, skinds, fuse_stat = run_fuse(ctx, exe)
+    allfails = ctx.coq_eval("c35", imports, ["(IB %s)" % x for x in lits] + ["(ID %s)" % x for x in dlits] + ["(IS %s)" % x for x in slits],
+                            "(fun c => match c with inl b => chkB b | inr (inl d) => chkG d | inr (inr f) => chkS f end)", pre=COQ_PRE, shard=60)
     fails = [i for i in allfails if i < len(lits)]
-    dfails = [i - len(lits) for i in allfails if i >= len(lits)]
+    dfails = [i - len(lits) for i in allfails if len(lits) <= i < len(lits) + len(dlits)]
+    for i in [i - len(lits) - len(dlits) for i in allfails if i >= len(lits) + len(dlits)][:2]:
+        ctx.violation("correspondence", skinds[i], expected="accumulateInertia (Model/Inertia.v at binary64) on the separately compiled parent and child", observed="fused mass / ipos / full tensor, see case",
+                      found_input=False, theorem="correspondence c35 AccumulateInertia", signature={"site": "mjCBody::AccumulateInertia", "class": "model"})
+    sup["fuse"] = fuse_stat
     for i in fails[:3]:
         ctx.violation("correspondence", kinds[i], expected="model output (Model/Inertia.v at binary64, relative tolerance 2^-30)", observed=lines[i][:600], found_input=False,
                       theorem="correspondence c35 bodyInertial", signature={"site": "mj_compile", "class": "model"},
@@ -497,11 +526,12 @@ def run(ctx):
     # ------------------------------------------------------------ meshes that tessellate a primitive
     mesh_stat = run_meshes(ctx, exe)
 
-    ctx.cov["evaluations"] = len(cases) + len(dcases) + len(fcases) + mesh_stat.get("n", 0)
+    ctx.cov["evaluations"] = len(cases) + len(dcases) + len(fcases) + mesh_stat.get("n", 0) + fuse_stat.get("compiles", 0)
     ctx.cov["distinct_nontrivial"] = len(nontriv)
     ctx.cov["rule"] = ("bodies built through the mjSpec C API: every primitive type x solid/shell alone and paired with a box, random bodies of 1..6 geoms (random sizes 0.05..2, poses, "
                        "unnormalised quaternions around the mjEPS window, density / explicit mass / zero mass / tiny density, geom groups against several inertiagrouprange values), permuted copies, "
-                       "two fixed mm-sized bodies, a negative density; each compiled body is compared in Coq with Model/Inertia.v at binary64 (per-geom mass_ and inertia, body mass, ipos, single-geom "
+                       "two fixed mm-sized bodies, a negative density; chains of a hinged body and 1-2 jointless, rotated child bodies carrying elongated (anisotropic) geoms, compiled separately, with "
+                       "compiler.fusestatic and through mjs_bodyToFrame (the receiving body must have the mass properties of the union of all geoms; AccumulateInertia is also compared with the Coq model); each compiled body is compared in Coq with Model/Inertia.v at binary64 (per-geom mass_ and inertia, body mass, ipos, single-geom "
                        "iquat/inertia or the private full tensor handed to mjuu_fullInertia; relative tolerance 2^-30) and with the numpy quadrature oracle; non-trivial = distinct successful compile outputs")
     ctx.cov["samples"] = [kinds[0], kinds[len(kinds) // 2], kinds[-2]]
     ctx.cov["correspondence_disagreements"] = len(fails)
@@ -516,6 +546,135 @@ def run(ctx):
     sup["not_modelled"] = "hfield geoms (box arm), mesh geoms (oracle only), fromto, boundmass/boundinertia/balanceinertia/settotalmass, explicit inertial elements (C47)"
     ctx.cov["explanation"] = ("theorems of Props/C35.v proved over R; model tied to mj_compile on %d bodies (%d Coq disagreements) and to mjuu_globalinertia/offcenter on %d calls; "
                               "eig3 contract observed on %d tensors; %d mesh compilations" % (len(cases), len(fails), len(dcases), len(fcases), mesh_stat.get("n", 0)))
+
+
+def qmul(a, b):
+    return [a[0] * b[0] - a[1] * b[1] - a[2] * b[2] - a[3] * b[3], a[0] * b[1] + a[1] * b[0] + a[2] * b[3] - a[3] * b[2],
+            a[0] * b[2] - a[1] * b[3] + a[2] * b[0] + a[3] * b[1], a[0] * b[3] + a[1] * b[2] - a[2] * b[1] + a[3] * b[0]]
+
+
+def geom_tokens(g):
+    return "%d %d %d %d %s %s %s %s %s" % (g["type"], int(g["shell"]), g["group"], 0 if g["mass"] is None else 1, hx(g["mass"] or 0.0), hx(g["density"]),
+                                          " ".join(hx(x) for x in g["size"]), " ".join(hx(x) for x in g["pos"]), " ".join(hx(x) for x in g["quat"]))
+
+
+def run_fuse(ctx, exe):
+    """static (jointless) bodies fused into their parent: compiler.fusestatic and mjs_bodyToFrame.  The receiving body must get the
+    mass properties of the UNION of all geoms (quadrature in the parent frame, poses composed in python)."""
+    rng = ctx.rng
+    big = ctx.tier != "quick"
+    ncase = 30 if not big else 150
+    special_q = [[1.0, 0, 0, 0], [math.sqrt(0.5), 0, 0, math.sqrt(0.5)], [math.sqrt(0.5), math.sqrt(0.5), 0, 0], [0.0, 0, 1.0, 0], [0.5, 0.5, 0.5, 0.5]]
+
+    def aniso_geom():
+        g = rand_geom(rng, rng.choice([GT["box"], GT["capsule"], GT["cylinder"], GT["ellipsoid"], GT["box"]]), rng.random() < 0.25, plain=True)
+        if g["type"] == GT["ellipsoid"]:
+            g["shell"] = False
+        k = rng.randrange(3)
+        g["size"] = [rng.uniform(0.05, 0.12) for _ in range(3)]
+        g["size"][k if g["type"] in (GT["box"], GT["ellipsoid"]) else 1] = rng.uniform(0.3, 0.6)      # elongated: anisotropic inertia
+        g["quat"] = unit(g["quat"])
+        if rng.random() < 0.3:
+            g["density"] = rng.uniform(200.0, 3000.0)
+        return g
+
+    cases = []
+    for k in range(ncase):
+        L = rng.choice([2, 2, 2, 3])
+        levels = []
+        for lv in range(L):
+            ng = 1 if rng.random() < 0.55 else 2
+            pose = None
+            if lv > 0:
+                r = rng.random()
+                q = rng.choice(special_q) if r < 0.3 else unit([rng.gauss(0, 1) for _ in range(4)])
+                pose = ([rng.uniform(-0.4, 0.4) for _ in range(3)], q)
+            levels.append({"pose": pose, "geoms": [aniso_geom() for _ in range(ng)]})
+        cases.append(levels)
+    reqs, meta, oreq = [], [], []
+    for ci, levels in enumerate(cases):
+        body = " ".join((("%s %s " % (" ".join(hx(x) for x in lv["pose"][0]), " ".join(hx(x) for x in lv["pose"][1]))) if lv["pose"] else "")
+                        + "%d %s" % (len(lv["geoms"]), " ".join(geom_tokens(g) for g in lv["geoms"])) for lv in levels)
+        for mode in (0, 1, 2):
+            if mode == 2 and len(levels) != 2:
+                continue
+            reqs.append("S %d %d %s" % (mode, len(levels), body))
+            meta.append((ci, mode))
+        # the union of all geoms expressed in the receiving body's frame
+        union = []
+        cum = None
+        for lv in levels:
+            if lv["pose"] is not None:
+                cum = lv["pose"] if cum is None else ([a + b for a, b in zip(cum[0], mv(q2m(cum[1]), lv["pose"][0]))], unit(qmul(cum[1], lv["pose"][1])))
+            for g in lv["geoms"]:
+                gg = dict(g)
+                if cum is not None:
+                    gg["pos"] = [a + b for a, b in zip(cum[0], mv(q2m(cum[1]), g["pos"]))]
+                    gg["quat"] = unit(qmul(cum[1], g["quat"]))
+                union.append(gg)
+        oreq.append({"op": "body", "glo": 0, "ghi": 5, "geoms": union})
+    rcode, out, err = ctx.run(exe, "".join(r + "\n" for r in reqs))
+    lines = out.strip("\n").split("\n")
+    stat = {"cases": len(cases), "compiles": len(reqs), "worst_full_vs_union": 0.0, "worst_reconstruct_vs_union": 0.0, "rotated_anisotropic_children": 0}
+    if rcode != 0 or len(lines) != len(reqs):
+        ctx.broken.append(("correspondence", "driver c35_mass failed (S)", "rc=%s %s" % (rcode, err[-500:])))
+        return [], [], stat
+    ores = ask_oracle(ctx, oreq)
+    if ores is None:
+        return [], [], stat
+    slits, skinds = [], []
+    sep = {}
+    for (ci, mode), req, l in zip(meta, reqs, lines):
+        levels = cases[ci]
+        case_js = {"mode": {0: "separate", 1: "fusestatic", 2: "mjs_bodyToFrame"}[mode], "levels": levels}
+        sig = {"site": "mjCBody::AccumulateInertia", "class": {0: "separate", 1: "fusestatic", 2: "bodyToFrame"}[mode]}
+        t = l.split()
+        if not t or t[0] != "ok":
+            ctx.violation("impl_violation", case_js, expected="compiles", observed=l[:300], theorem="C35_fuse oracle", signature=sig)
+            continue
+        nb = int(t[1])
+        vals = [unhx(x) for x in t[2:2 + 18 * nb]]
+        full = [unhx(x) for x in t[3 + 18 * nb:9 + 18 * nb]]
+        bodies = [vals[18 * k:18 * k + 18] for k in range(nb)]
+        if mode == 0:
+            sep[ci] = bodies
+            if nb != len(levels):
+                ctx.violation("impl_violation", case_js, expected="%d bodies" % len(levels), observed=nb, theorem="C35_fuse oracle", signature=sig)
+            continue
+        if nb != 1:
+            ctx.violation("impl_violation", case_js, expected="the static bodies are merged into their parent", observed="%d bodies" % nb, theorem="C35_fuse oracle", signature=sig)
+            continue
+        exp = ores[ci]
+        M, com, J = exp["M"], exp["com"], exp["J"]
+        tr = trace(J)
+        b0 = bodies[0]
+        mass, ipos, iquat, inertia = b0[0], b0[1:4], b0[4:8], b0[8:11]
+        if any(lv["pose"] is not None and lv["pose"][1] != [1.0, 0, 0, 0] for lv in levels):
+            stat["rotated_anisotropic_children"] += 1
+        e_m = abs(mass - M) / M
+        e_c = max(abs(x - y) for x, y in zip(ipos, com)) / (1 + max(abs(x) for x in com))
+        if e_m > 1e-9 or e_c > 1e-9:
+            ctx.violation("impl_violation", case_js, expected={"mass": M, "com": com}, observed={"mass": mass, "ipos": ipos}, theorem="C35_fuse (mass and centre of mass of the union)", signature=sig)
+        Jrec = rdrt(q2m(iquat), inertia)
+        e_r = maxdiff(Jrec, J) / tr
+        stat["worst_reconstruct_vs_union"] = max(stat["worst_reconstruct_vs_union"], e_r)
+        if e_r > RECON_TOL:
+            ctx.violation("impl_violation", case_js, expected={"tensor of the union of all geoms about its centre of mass (quadrature)": unsym(J), "tolerance": "%g * trace" % RECON_TOL},
+                          observed={"Q diag(body_inertia) Q^T": unsym(Jrec), "body_iquat": iquat, "body_inertia": inertia, "relative error": e_r},
+                          theorem="C35_fuse / C35_reconstruct (the fused body has the inertia of the union)", signature=sig)
+        if not math.isnan(full[0]):
+            # exact when no eig3 result entered the accumulation (one geom per body, one fused level); otherwise eig3 accuracy
+            exact = mode == 2 or (len(levels) == 2 and all(len(lv["geoms"]) == 1 for lv in levels))
+            e_f = maxdiff(sym(full), J) / tr
+            if exact:
+                stat["worst_full_vs_union"] = max(stat["worst_full_vs_union"], e_f)
+            if e_f > (1e-9 if exact else RECON_TOL):
+                ctx.violation("impl_violation", case_js, expected={"tensor of the union (quadrature)": unsym(J)}, observed={"tensor handed to mjuu_fullInertia": full, "relative error": e_f},
+                              theorem="C35_fuse (parallel-axis accumulation with the child tensor rotated into the parent frame)", signature=sig)
+        if mode == 1 and len(levels) == 2 and ci in sep and len(sep[ci]) == 2 and not math.isnan(full[0]):
+            slits.append("(%s, %s, %s)" % (F.flist(sep[ci][0][:11]), F.flist(sep[ci][1]), F.flist([mass] + ipos + full)))
+            skinds.append(case_js)
+    return slits, skinds, stat
 
 
 def run_meshes(ctx, exe):
